@@ -11,7 +11,9 @@
    of a batched C program compiled by the chibicc built from the tree under test; the
    program prints (unsigned long)expr, sizeof(expr), signedness probe and the object
    afterwards; each line must equal Level A's.  gcc is consulted only when chibicc
-   disagrees with the spec (spec bug guard)."""
+   disagrees with the spec (spec bug guard).  Families added after the seeded round: cast
+   chains (T)(U)x explicit and through the conversion contexts; pointers (p + i, i + p,
+   p - i, p - q, comparisons) into a reserved address range standing for a huge array."""
 import json, os
 import vt, cexpr
 from vt import Infra
